@@ -96,6 +96,27 @@ func escape(info *types.Info, root ast.Node, f func(v *types.Var, escapes bool))
 
 		case *ast.IncDecStmt:
 			lvalue(n.X, false)
+
+		case *ast.RangeStmt:
+			// (sacheck) The analysed module declares `go 1.13`: the key and value variables of a range
+			// statement are ONE variable per loop, assigned on every iteration — not single-assignment.
+			// Without this, `go f(k, v)` inside the loop is inlined as `go func() { … k … v … }()`,
+			// which reads the variables when the goroutine runs instead of when it is started.
+			for _, e := range []ast.Expr{n.Key, n.Value} {
+				if e == nil {
+					continue
+				}
+				if id, ok := e.(*ast.Ident); ok {
+					if v, ok := info.Defs[id].(*types.Var); ok {
+						f(v, false)
+						continue
+					}
+					if id.Name == "_" {
+						continue
+					}
+				}
+				lvalue(e, false)
+			}
 		}
 		return true
 	})
